@@ -75,13 +75,13 @@ def run_and_audit(ctx, iso3, options, title):
 
 def shard(ctx):
     thorough = ctx.tier == "thorough"
-    n = 130 if thorough else 7
+    n = 130 if thorough else 20
 
     def body(case):
         iso3, options = case
         run_and_audit(ctx, iso3, options, "c01_%d_%d" % (ctx.shard, ctx.evaluations))
     drive(ctx, case_strategy(), body, n, shrink=False, tag="runs")
-    model.run_fixed(ctx, model.extreme_cases(), lambda iso, o, k: (ctx.count(), run_and_audit(ctx, iso, o, "c01x_%s" % iso)))
+    model.run_fixed(ctx, model.extreme_cases_wide(), lambda iso, o, k: (ctx.count(), run_and_audit(ctx, iso, o, "c01x_%s" % iso)))
     if thorough:
         isos = model.iso3_list()
         for i, iso in enumerate(isos):
